@@ -5,6 +5,7 @@ import (
 	"bytes"
 	"fmt"
 	"hash/fnv"
+	"io"
 	"math"
 	"sort"
 	"strconv"
@@ -58,6 +59,7 @@ func evalC11(c c11Case) ([]c11Finding, error) {
 		return nil, fmt.Errorf("empty case")
 	}
 	var m vegeta.Metrics
+	hdr := vegeta.NewHDRHistogramPlotReporter(&m) // one reporter for the whole run, rendered at every intermediate Close as periodic reporting does
 	closes := map[int]bool{}
 	for _, p := range c.Closes {
 		closes[p] = true
@@ -69,6 +71,7 @@ func evalC11(c c11Case) ([]c11Finding, error) {
 		m.Add(&vegeta.Result{Latency: time.Duration(l), Code: 200, Timestamp: time.Unix(1, 0)})
 		if closes[i+1] {
 			m.Close()
+			_ = hdr.Report(io.Discard)
 		}
 	}
 	m.Close()
@@ -121,7 +124,7 @@ func evalC11(c c11Case) ([]c11Finding, error) {
 	}
 	// HDR histogram report: values never decrease as the percentile grows
 	var buf bytes.Buffer
-	if err := vegeta.NewHDRHistogramPlotReporter(&m).Report(&buf); err != nil {
+	if err := hdr.Report(&buf); err != nil {
 		return known, fmt.Errorf("%s: hdrplot reporter: %v", head, err)
 	}
 	sc := bufio.NewScanner(&buf)
@@ -179,7 +182,9 @@ func (x *xorshift) norm() float64 {
 }
 
 var c11Families = []string{"uniform", "lognormal", "exponential", "constant", "fewvalued", "bimodal-gap", "heavytail", "ramp"}
-var c11Orders = []string{"drawn", "sorted", "reversed", "zigzag", "blocks", "blocks-reversed"}
+var c11Orders = []string{"drawn", "sorted", "reversed", "zigzag", "blocks", "blocks-reversed", "alternate"}
+
+var c11OnlyOrders []string // != nil: the orders to draw from
 
 func c11Gen(t *rapid.T, maxN int) c11Case {
 	var n int
@@ -189,7 +194,11 @@ func c11Gen(t *rapid.T, maxN int) c11Case {
 	default:
 		n = int(math.Exp(rapid.Float64Range(math.Log(20), math.Log(float64(maxN))).Draw(t, "logn")))
 	}
-	c := c11Case{Family: rapid.SampledFrom(c11Families).Draw(t, "family"), Order: rapid.SampledFrom(c11Orders).Draw(t, "order")}
+	orders := c11Orders
+	if c11OnlyOrders != nil {
+		orders = c11OnlyOrders
+	}
+	c := c11Case{Family: rapid.SampledFrom(c11Families).Draw(t, "family"), Order: rapid.SampledFrom(orders).Draw(t, "order")}
 	rng := xorshift(rapid.Uint64Range(1, math.MaxUint64).Draw(t, "seed"))
 	scale := math.Exp(rapid.Float64Range(math.Log(1e3), math.Log(1e11)).Draw(t, "scale")) // 1µs .. 100 s
 	c.Lat = make([]int64, n)
@@ -246,6 +255,27 @@ func c11Gen(t *rapid.T, maxN int) c11Case {
 			} else {
 				c.Lat[i] = asc[hi]
 				hi--
+			}
+		}
+	case "alternate":
+		// two populations taking turns (an attack going round two targets, one slow and one fast): the lower half of
+		// the values at the even positions, the upper half at the odd ones, each in drawn order
+		lo, hi := append([]int64(nil), asc[:n/2]...), append([]int64(nil), asc[n/2:]...)
+		for i := len(lo) - 1; i > 0; i-- {
+			j := int(rng.next() % uint64(i+1))
+			lo[i], lo[j] = lo[j], lo[i]
+		}
+		for i := len(hi) - 1; i > 0; i-- {
+			j := int(rng.next() % uint64(i+1))
+			hi[i], hi[j] = hi[j], hi[i]
+		}
+		for i, a, b := 0, 0, 0; i < n; i++ {
+			if (i%2 == 1 && b < len(hi)) || a >= len(lo) {
+				c.Lat[i] = hi[b]
+				b++
+			} else {
+				c.Lat[i] = lo[a]
+				a++
 			}
 		}
 	case "blocks", "blocks-reversed":
@@ -337,8 +367,14 @@ func TestC11Percentiles(t *testing.T) {
 // thousand samples on, which is where tail interpolation (the top rows of the HDR report) matters
 func TestC11PercentilesLarge(t *testing.T) {
 	vh.Check(t, 3, 5, func(t *rapid.T) {
+		// half of the large cases: orders in which a sample's position says something about its value
+		c11OnlyOrders = nil
+		if rapid.Bool().Draw(t, "positional") {
+			c11OnlyOrders = []string{"alternate", "alternate", "zigzag"}
+		}
+		defer func() { c11OnlyOrders = nil }()
 		c := c11Gen(t, 150000)
-		for i := 0; len(c.Lat) < 30000 && i < 3; i++ {
+		for i := 0; (len(c.Lat) < 30000 || (i == 0 && len(c.Lat) < 70000)) && i < 4; i++ {
 			c = c11Gen(t, 150000)
 		}
 		c11Run(t, c)
